@@ -165,7 +165,7 @@ class C02(Prop):
 class C04(Prop):
     cmd = "c04"
     cases = {"quick": 120, "thorough": 3000}
-    grammar_files = {"quick": 80, "thorough": 2000}
+    grammar_files = {"quick": 200, "thorough": 3000}
     rule = ("every non-empty corpus file, files written by the grammar-based generator gen/xlsxgen.py (shared formulas, inline strings, tables, ...) and workbooks built through the API "
             "(C02 generator): two saves of the unchanged object, three load/save generations (standard and light writer), one single-cell edit on the loaded workbook, "
             "aimed at shared-formula members / formula cells / existing cells / new cells; distinct by hash of the original's dump")
